@@ -456,6 +456,43 @@ def collect(c, tier, seed, replay=None):
     return cases, outcomes, oracle
 
 
+def selfnamed_split(c, seed):
+    """`pna split x.part1.pna --out-dir o` whose whole output is ONE part: that part is o/x.part1.pna, the very name the
+    finished archive gets (fix 067bc08d: the existence test of 36c3adfe in front of the final rename saw the part just
+    written and refused the run after the output was complete).  Outside Overwrite.v, where head and first part are
+    two paths.  Oracle: a clean run succeeds and leaves exactly that file; a second run without --overwrite fails and
+    leaves it untouched; with --overwrite it succeeds."""
+    rnd = random.Random(seed + 5)
+    msgs = []
+    with cli.Sandbox("c20s") as sb:
+        os.makedirs(sb.path("t"))
+        for n in ("a", "b"):
+            with open(sb.path("t", n), "wb") as f:
+                f.write(rnd.randbytes(1500 + rnd.randrange(2000)))
+        r = cli.run_pna(["--quiet", "create", "x.pna", "--store", "-r", "t", "--split", "2000"], sb.root, timeout=60)
+        if r["rc"] != 0 or not os.path.exists(sb.path("x.part1.pna")):
+            msgs.append("create --split 2000 of two stored files does not give x.part1.pna (rc %s)" % r["rc"])
+        else:
+            cmd = ["--quiet", "split", "x.part1.pna", "--out-dir", "o", "--max-size", "1000000"]
+            r1 = cli.run_pna(cmd, sb.root, timeout=60)
+            got = sorted(os.listdir(sb.path("o"))) if os.path.isdir(sb.path("o")) else None
+            if r1["rc"] != 0 or got != ["x.part1.pna"]:
+                msgs.append("pna %s in a clean directory: exit %s, out-dir holds %s: %s" % (" ".join(cmd), r1["rc"], got, r1["err"][-160:].decode("utf-8", "replace")))
+            else:
+                h0 = open(sb.path("o", "x.part1.pna"), "rb").read()
+                r2 = cli.run_pna(cmd, sb.root, timeout=60)
+                h1 = open(sb.path("o", "x.part1.pna"), "rb").read()
+                if r2["rc"] == 0 or h1 != h0:
+                    msgs.append("the same split again without --overwrite: exit %s, the existing o/x.part1.pna %s" % (r2["rc"], "was modified" if h1 != h0 else "is unchanged"))
+                r3 = cli.run_pna(cmd[:2] + ["--overwrite"] + cmd[2:], sb.root, timeout=60)
+                if r3["rc"] != 0:
+                    msgs.append("the same split with --overwrite fails (exit %s)" % r3["rc"])
+    c.cov["evaluations"] += 3
+    c.hist["split whose single output part has the archive's own name"] = 3
+    for m in msgs:
+        c.violations.append(("oracle", "C20 (single self-named output part): " + m, m, True))
+
+
 def run(tier, seed, replay=None):
     c = Check("C20", tier, seed)
     c.rule = ("scenario = (command line, pre-existing objects placed at a subset of its output paths / directory positions, "
@@ -465,5 +502,6 @@ def run(tier, seed, replay=None):
     c.proofs()
     cases, outcomes, oracle = collect(c, tier, seed, replay)
     c.correspondence_py("overwrite", cases, outcomes, oracle)
+    selfnamed_split(c, seed)
     return c.finish("proof", ["Coq 8.16.1 kernel and VM", "ExtrOcamlBasic extraction + modelrun/driver.ml (cross-checked against kernel evaluation on a sample)",
                               "props/C20.py + vlib/cli.py (placement, snapshots, physical paths)", "the real pna binary built from /repo's working tree"])
